@@ -25,7 +25,7 @@ func init() {
 			"a bar with zero TimeSig inherits the previous bar's signature at AddBar time (documented behaviour of AddBar)",
 			"per-track assignment in ToSMF1 (events of track number n on the n-th used track) is read as part of 'multi-track export'",
 		},
-		Require: []string{"songs", "bars_num_ge_8", "sig_changes", "notes_with_duration", "smf1_tracks", "compound_meters", "in_place_edits_between_exports"},
+		Require: []string{"songs", "bars_num_ge_8", "sig_changes", "notes_with_duration", "smf1_tracks", "compound_meters", "in_place_edits_between_exports", "shared_pattern_songs"},
 		Run:     runC20,
 	})
 }
@@ -350,6 +350,83 @@ func runC20(c *mon.Ctx) {
 		}
 	})
 	c.MarkExhaustive("all ordered pairs of the legal (numerator 1..24, denominator 1..32) signatures as consecutive bars")
+
+	// aliasing in the input: a pattern bar added several times (AddBar copies the Bar, the copies share
+	// the *Event elements) and one event appended to several bars
+	c.Each("shared-pattern", c.N(500, 50_000), func(i int64, r *mon.Rand) {
+		song := sequencer.New()
+		res := uint16(8 * r.Range(1, 400))
+		song.Ticks = smf.MetricTicks(res)
+		sig := sigs[r.Intn(len(sigs))]
+		L := ref.BarLen32(int(sig[0]), int(sig[1]))
+		var pattern sequencer.Bar
+		pattern.TimeSig = sig
+		ne := r.Range(1, 6)
+		type pe struct {
+			pos, dur uint8
+			msg      []byte
+			track    int
+		}
+		var pes []pe
+		for k := 0; k < ne; k++ {
+			e := pe{pos: uint8(r.Intn(int(L))), track: r.Intn(3), msg: []byte{0x90 | byte(k), byte(60 + k), 100}}
+			if L-int64(e.pos) >= 1 {
+				e.dur = uint8(1 + r.Intn(int(L-int64(e.pos))))
+			}
+			pes = append(pes, e)
+			pattern.Events = append(pattern.Events, &sequencer.Event{TrackNo: e.track, Pos: e.pos, Duration: e.dur, Message: smf.Message(e.msg)})
+		}
+		reps := r.Range(2, 6)
+		for k := 0; k < reps; k++ {
+			song.AddBar(pattern)
+		}
+		t32 := int64(res) / 8
+		var want []tickMsg
+		if sig != [2]uint8{4, 4} {
+			want = append(want, tickMsg{0, string(ref.Meta(0x58, []byte{sig[0], ref.Log2(int(sig[1])), 8, 8}))})
+		}
+		for k := 0; k < reps; k++ {
+			start := int64(k) * L * t32
+			for _, e := range pes {
+				st := start + int64(e.pos)*t32
+				want = append(want, tickMsg{st, string(e.msg)})
+				if e.dur > 0 {
+					want = append(want, tickMsg{st + int64(e.dur)*t32, string([]byte{0x80 | e.msg[0]&0x0F, e.msg[1], 0})})
+				}
+			}
+		}
+		sortTM(want)
+		in := map[string]any{"resolution": res, "signature": fmt.Sprint(sig), "pattern events": fmt.Sprint(pes), "bar added n times": reps}
+		for ex := 0; ex < 2; ex++ {
+			var sm smf.SMF
+			if c.Guard("panic:export", in, func() {
+				if ex == 0 {
+					sm = song.ToSMF0()
+				} else {
+					sm = song.ToSMF1()
+				}
+			}) {
+				return
+			}
+			var got []tickMsg
+			for _, tr := range sm.Tracks {
+				var abs int64
+				for _, e := range tr {
+					abs += int64(e.Delta)
+					if e.Message.Is(midi.ChannelMsg) || e.Message.Is(smf.MetaTimeSigMsg) {
+						got = append(got, tickMsg{abs, string(e.Message)})
+					}
+				}
+			}
+			sortTM(got)
+			if !eqTM(got, want) {
+				c.Violation("shared-pattern", fmt.Sprintf("a pattern bar added %d times (export %d): %s", reps, ex, firstTMDiff(want, got)), in, showTM(want), showTM(got))
+			}
+		}
+		c.Count("shared_pattern_songs", 1)
+		c.Count("songs", 1)
+		c.DistinctBytes([]byte(fmt.Sprint("sp", res, sig, pes, reps)))
+	})
 
 	// state carried across exports: export, edit one bar's signature in place, export again
 	c.Each("edit-between-exports", c.N(2000, 200_000), func(i int64, r *mon.Rand) {
